@@ -233,6 +233,7 @@ func runC09(c *Ctx) {
 	c09ScannerRefill(c, "C09.3")
 	ruleVendoredEqualsUpstream(c, "C09.4", vendoredScanner)
 	ruleNoSelfFormat(c, "C09.5", "sql")
+	ruleNoGlobalState(c, "C09.6", "sql")
 }
 
 func c09Progress(c *Ctx, rule string) {
